@@ -117,6 +117,9 @@ def emit_map(ev, fr, fi, post, env, out_list: str):
         if f.equals(ph):
             return lambda v: v
 
+        from .common import account_returns
+        account_returns(fi)             # (the return expression was read as an element-wise image of the output list)
+
         def apply(v, f=f):
             if isinstance(v, Rat):
                 return f.subst({"@elt": v})
